@@ -3,9 +3,7 @@ package props
 import (
 	"fmt"
 	"go/ast"
-	"go/token"
 	"go/types"
-	"strings"
 
 	"gpverif/core"
 )
@@ -277,62 +275,78 @@ func c22Insertion(r *core.Run, p *core.Prog) {
 		}
 		info := f.Info()
 		hash := f.Obj.Type().(*types.Signature).Params().At(0)
-		n := 0
-		core.Walk(f.Decl.Body, false, func(x ast.Node) bool {
-			ifs, ok := x.(*ast.IfStmt)
-			if !ok || ifs.Init == nil {
-				return true
-			}
-			b, ok := core.BinOp(ifs.Cond, token.EQL)
-			if !ok {
-				return true
-			}
-			o := core.ObjOf(info, selOrIdent(b.Y))
-			if o == nil || o.Name() != "DirectionReverts" {
-				return true
-			}
-			// the init must classify this packet's hash
-			initOK := false
-			if a, ok := ifs.Init.(*ast.AssignStmt); ok && len(a.Rhs) == 1 {
-				if c, ok := a.Rhs[0].(*ast.CallExpr); ok && core.CallName(info, c) == pkgCT+".ClassifyPacketDirection"+v && len(c.Args) == 2 && core.ObjOf(info, c.Args[0]) == hash {
-					initOK = true
-				}
-			}
-			n++
-			keyOf := func(blk ast.Node) string {
-				k := ""
-				core.Walk(blk, false, func(y ast.Node) bool {
-					if a, ok := y.(*ast.AssignStmt); ok && len(a.Lhs) == 1 {
-						if ix, ok := ast.Unparen(a.Lhs[0]).(*ast.IndexExpr); ok {
-							if c, ok := a.Rhs[0].(*ast.CallExpr); ok && core.CallName(info, c) == pkgCapture+".NewFlow" {
-								k = core.Str(ix.Index)
-							}
-						}
-					}
-					return true
-				})
-				return k
-			}
-			thenK := keyOf(ifs.Body)
-			elseK := ""
-			if ifs.Else != nil {
-				elseK = keyOf(ifs.Else)
-			}
-			// the reversed hash variable: defined as <hash>.Reverse()
-			revName := ""
-			core.Walk(f.Decl.Body, false, func(y ast.Node) bool {
-				if a, ok := y.(*ast.AssignStmt); ok && len(a.Rhs) == 1 && len(a.Lhs) == 1 {
-					if c, ok := a.Rhs[0].(*ast.CallExpr); ok && core.CallName(info, c) == pkgCT+".EPHash"+v+".Reverse" {
-						revName = core.Str(a.Lhs[0])
+		g := core.GraphOf(f)
+		cases := enumTests(f.Decl.Body)
+		// the reversed hash: a local defined as <hash>.Reverse()
+		revs := map[types.Object]bool{}
+		core.Walk(f.Decl.Body, false, func(y ast.Node) bool {
+			if a, ok := y.(*ast.AssignStmt); ok && len(a.Rhs) == 1 && len(a.Lhs) == 1 {
+				if c, ok := a.Rhs[0].(*ast.CallExpr); ok && core.CallName(info, c) == pkgCT+".EPHash"+v+".Reverse" {
+					if rx, _ := core.MethodCall(info, c); rx != nil && core.ObjOf(info, rx) == hash {
+						revs[core.ObjOf(info, a.Lhs[0])] = true
 					}
 				}
-				return true
-			})
-			okK := initOK && revName != "" && strings.Contains(thenK, revName+"[") && strings.Contains(elseK, hash.Name()+"[") && !strings.Contains(elseK, revName)
-			r.Check(rule, fmt.Sprintf("addToFlowLog%s:insertion#%d", v, n), p.Rel(ifs.Pos()), okK,
-				fmt.Sprintf("a new flow whose first packet is classified as a response must be stored under the reversed key (then: %s), any other under the packet's own key (else: %s)", thenK, elseK))
+			}
 			return true
 		})
+		isClassify := func(e ast.Expr) bool {
+			c, ok := ast.Unparen(resolveLocal(info, f.Decl.Body, e)).(*ast.CallExpr)
+			return ok && core.CallName(info, c) == pkgCT+".ClassifyPacketDirection"+v && len(c.Args) == 2 && core.ObjOf(info, c.Args[0]) == hash
+		}
+		paths, okP := g.Paths(core.Entry, core.Exit, 20000)
+		if !okP || len(revs) == 0 {
+			r.Undecided(rule, "addToFlowLog"+v+":paths", p.Rel(f.Decl.Pos()), "too many paths, or no reversed hash (<hash>.Reverse()) found")
+			continue
+		}
+		revSites, ownSites := map[ast.Node]bool{}, map[ast.Node]bool{}
+		bad := ""
+		for _, path := range paths {
+			verdict := "" // "reverts" | "other"
+			for i, id := range path {
+				n := g.Nodes[id]
+				if n == nil {
+					continue
+				}
+				if tk, isC := g.Taken(path, i); isC {
+					if subj, k, eq, ok := enumCond(cases, n, tk); ok && isClassify(subj) {
+						if o := core.ObjOf(info, selOrIdent(k)); o != nil && o.Name() == "DirectionReverts" {
+							verdict = map[bool]string{true: "reverts", false: "other"}[eq]
+						} else if eq {
+							verdict = "other"
+						}
+					}
+					continue
+				}
+				a, ok := n.(*ast.AssignStmt)
+				if !ok || len(a.Lhs) != 1 || len(a.Rhs) != 1 {
+					continue
+				}
+				ix, isIx := ast.Unparen(a.Lhs[0]).(*ast.IndexExpr)
+				c, isCall := a.Rhs[0].(*ast.CallExpr)
+				if !isIx || !isCall || core.CallName(info, c) != pkgCapture+".NewFlow" {
+					continue
+				}
+				usesRev, usesOwn := mentionsAny(info, ix.Index, revs), core.MentionsObj(info, ix.Index, hash)
+				pl := pathLines(p, g, path)
+				switch {
+				case usesRev && !usesOwn:
+					revSites[a] = true
+					if verdict != "reverts" {
+						bad = "a new flow is stored under the reversed key although its first packet was not classified as a response (DirectionReverts): " + pl
+					}
+				case usesOwn && !usesRev:
+					ownSites[a] = true
+					if verdict != "other" {
+						bad = "a new flow is stored under the packet's own key although the classification said the packet is a response (or was not consulted): " + pl
+					}
+				default:
+					bad = "a new flow is stored under a key that is neither the packet's hash nor its reverse: " + pl
+				}
+			}
+		}
+		n := len(revSites)
+		r.Check(rule, "addToFlowLog"+v+":insertion-key-follows-verdict", p.Rel(f.Decl.Pos()), bad == "" && len(revSites) == len(ownSites),
+			orStr(bad, fmt.Sprintf("%d reversed-key and %d own-key insertion sites", len(revSites), len(ownSites))))
 		if n != 2 {
 			r.Undecided(rule, "addToFlowLog"+v+":insertion-sites", p.Rel(f.Decl.Pos()), fmt.Sprintf("%d insertion sites recognised (2 expected: reverse-first and forward-first lookup order)", n))
 		}
